@@ -497,6 +497,94 @@ theorem C04_skeleton_reset_fresh (a : Nat) (seed : Val) (h₁ h₂ later : List 
       = traj a (run (⟨a, resetProg, seed⟩ :: onlyOf a later) (run h₂ p₂).1).2 :=
   C04_history_irrelevant refClass a resetProg seed resetProg_resetOK resetProg_rebuilds h₁ h₂ later p₁ p₂ hok₁ hok₂ hlater hG henv
 
+/-! ### episode schedules: episode k of a long-lived environment = an environment built from scenario k
+
+One instance alone (no other instance interferes), with the operations AS THE CODE HAS THEM (the leaking `stepProg` included: alone, what
+`step` reads from the globals is what the instance's own last `from_config` wrote). -/
+
+/-- the operations of one instance in sequence: what its caller sees -/
+def runSolo : List (List Cmd × Val) → Inst → Store → List (List Val)
+  | [], _, _ => []
+  | (p, a) :: r, i, G => (execProg a p i G).2.2 :: runSolo r (execProg a p i G).1 (execProg a p i G).2.1
+
+/-- `j` is an environment constructed for the scenario that the scheduler of `i` hands out at `i`'s NEXT episode: constant scheduler,
+scenario and nmne_config equal to the scheduled ones, same io settings and agents. Its episode counter, its game and the process
+globals around it are arbitrary. -/
+def EpisodeMatch (i j : Inst) : Prop :=
+  j.env eScheduled = 0 ∧ j.env eNmneVar = 0
+  ∧ j.env eConfig = i.env eConfig + (if i.env eScheduled ≠ 0 then i.env eEpisode + 1 else 0)
+  ∧ j.env eNmneCfg = i.env eNmneCfg + (if i.env eNmneVar ≠ 0 then i.env eEpisode + 1 else 0)
+  ∧ j.env eIo = i.env eIo ∧ j.env eUsesRng = i.env eUsesRng
+
+/-- what a `step` of a lone instance depends on -/
+def StepRel (i j : Inst) (G G' : Store) : Prop :=
+  i.loc = j.loc ∧ i.env eUsesRng = j.env eUsesRng ∧ G gRng = G' gRng ∧ G gNmne = G' gNmne ∧ G gCapture = G' gCapture
+
+theorem reset_episode_match (seed : Val) (i j : Inst) (G G' : Store) (hm : EpisodeMatch i j) (hG : G gImport = G' gImport) :
+    (execProg seed resetProg i G).2.2 = (execProg seed resetProg j G').2.2
+    ∧ StepRel (execProg seed resetProg i G).1 (execProg seed resetProg j G').1 (execProg seed resetProg i G).2.1 (execProg seed resetProg j G').2.1 := by
+  obtain ⟨h1, h2, h3, h4, h5, h6⟩ := hm
+  simp only [eScheduled, eNmneVar, eConfig, eNmneCfg, eIo, eUsesRng, eEpisode, gImport] at h1 h2 h3 h4 h5 h6 hG
+  by_cases hs : i.env 5 = 0 <;> by_cases hv : i.env 6 = 0 <;>
+    simp only [hs, hv, ne_eq, not_true_eq_false, not_false_eq_true, if_true, if_false] at h3 h4 <;>
+    refine ⟨?_, ?_, ?_, ?_, ?_, ?_⟩ <;>
+    simp [resetProg, buildGame, scenarioExpr, nmneExpr, execProg, execCmd, eval, upd, eScheduled, eNmneVar, eConfig, eNmneCfg, eIo,
+      eUsesRng, eEpisode, gImport, gRng, gNmne, gCapture, gSimOutput, gPcapLoggers, lState, lStep, h1, h2, h3, h4, h5, h6, hG, hs, hv] <;>
+    omega
+
+theorem step_rel (a : Val) (i j : Inst) (G G' : Store) (h : StepRel i j G G') :
+    (execProg a stepProg i G).2.2 = (execProg a stepProg j G').2.2
+    ∧ StepRel (execProg a stepProg i G).1 (execProg a stepProg j G').1 (execProg a stepProg i G).2.1 (execProg a stepProg j G').2.1 := by
+  obtain ⟨h1, h2, h3, h4, h5⟩ := h
+  simp only [eUsesRng, gRng, gNmne, gCapture] at h2 h3 h4 h5
+  refine ⟨?_, ?_, ?_, ?_, ?_, ?_⟩ <;>
+    simp [stepProg, execProg, execCmd, eval, upd, eUsesRng, gRng, gNmne, gCapture, gSimOutput, lState, lStep, h1, h2, h3, h4, h5]
+
+theorem steps_rel : ∀ (acts : List Val) (i j : Inst) (G G' : Store), StepRel i j G G' →
+    runSolo (acts.map fun a => (stepProg, a)) i G = runSolo (acts.map fun a => (stepProg, a)) j G' := by
+  intro acts
+  induction acts with
+  | nil => intro i j G G' _; rfl
+  | cons a r ih =>
+    intro i j G G' h
+    have := step_rel a i j G G' h
+    simp only [List.map_cons, runSolo]
+    rw [this.1, ih _ _ _ _ this.2]
+
+/-- **Episode k of a scheduled environment is the episode of an environment built from scenario k.** For the skeleton with the operations
+as the code has them: whatever the long-lived instance `i` did before (its game `i.loc` and the globals `G` are arbitrary), `reset(seed)`
+followed by ANY action sequence returns exactly what an instance `j` constructed for that episode's scenario (EpisodeMatch) returns for
+`reset(seed)` and the same actions in a process with arbitrary other globals `G'` (import-only tables equal). -/
+theorem C04_skeleton_scheduled_episode_fresh (seed : Val) (acts : List Val) (i j : Inst) (G G' : Store)
+    (hm : EpisodeMatch i j) (hG : G gImport = G' gImport) :
+    runSolo ((resetProg, seed) :: acts.map fun a => (stepProg, a)) i G
+      = runSolo ((resetProg, seed) :: acts.map fun a => (stepProg, a)) j G' := by
+  have h := reset_episode_match seed i j G G' hm hG
+  simp only [runSolo]
+  rw [h.1, steps_rel acts _ _ _ _ h.2]
+
+/-- non-vacuity: a scheduled instance in its 3rd episode whose scenarios differ in nmne_config, and the constant instance for episode 4 -/
+example : EpisodeMatch (initInst 7 1 0 1 1 1 |> fun i => { i with env := upd i.env eEpisode 3 }) (initInst 11 5 0 1 0 0) := by
+  simp [EpisodeMatch, initInst, upd, eScheduled, eNmneVar, eConfig, eNmneCfg, eIo, eUsesRng, eEpisode]
+
+/-- the same statement for a `from_config` that assigns the NMNE class attributes only when the scenario has a (truthy) nmne_config -/
+def C04_CondWriteEpisodeFresh : Prop :=
+  ∀ (seed : Val) (acts : List Val) (i j : Inst) (G G' : Store), EpisodeMatch i j → G gImport = G' gImport →
+    runSolo ((resetProgCond, seed) :: acts.map fun a => (stepProg, a)) i G
+      = runSolo ((resetProgCond, seed) :: acts.map fun a => (stepProg, a)) j G'
+
+theorem resetProgCond_not_ok : resetOK refClass resetProgCond = false ∧ progOK refClass resetProgCond = false := by decide
+
+/-- with a CONDITIONAL write the property fails: an episode whose scenario has no nmne_config (value 0) after an episode that captured
+(global still 5) differs from the environment built for that scenario in a new process (global 0). This is why
+`C04_gen_writes_unconditional` is an obligation. -/
+theorem C04_conditional_write_counterexample : ¬ C04_CondWriteEpisodeFresh := by
+  intro h
+  have := h 3 [1] (initInst 7 0 0 0 0 0) (initInst 7 0 0 0 0 0) (fun g => if g = gNmne then 5 else if g = gCapture then 5 else 0) (fun _ => 0)
+    (by simp [EpisodeMatch, initInst, eScheduled, eNmneVar, eConfig, eNmneCfg, eIo, eUsesRng]) (by simp [gImport, gNmne, gCapture])
+  revert this
+  decide
+
 /-! ### the committed classification and the regenerated inventory -/
 
 open Primaite.Gen.SharedState
@@ -593,15 +681,23 @@ def isSink (f : Nat) : Bool := match roleOf f with | some r => r.sink | none => 
 
 def writesIn (e : Entry) (ph : Phase) : Bool := e.writers.any (fun f => (phasesOf f).contains ph)
 def readsIn (e : Entry) (ph : Phase) : Bool := e.readers.any (fun f => !isSink f && (phasesOf f).contains ph)
+/-- only a write that is a top-level statement of its function (not nested in `if`/`for`/`try`/…, not after a `return`) protects the
+reads of the same operation: a CONDITIONAL write leaves, on the other branch, whatever an earlier operation installed -/
+def uncondWritesIn (e : Entry) (ph : Phase) : Bool := e.uncondWriters.any (fun f => (phasesOf f).contains ph)
 
-/-- class derived from the regenerated sites and the committed roles. Within one operation the write is taken to come
-before the reads (true of `from_config`, which assigns the two NMNE attributes before it builds any node; validated by
-the differential rig), so a global is unsafe exactly when some operation reads it without writing it. -/
+/-- class derived from the regenerated sites and the committed roles. A global is unsafe exactly when some operation reads it
+without writing it UNCONDITIONALLY. That inside the operation the write comes before the reads is `C04_gen_write_order` (static: what
+`from_config` calls before the assignment) plus the call-event monitor of the rig (harness/rigs/isolation_order.py). -/
 def derive (e : Entry) : GClass :=
   if allPhases.all (fun ph => !writesIn e ph) then .importOnly
   else if allPhases.all (fun ph => !readsIn e ph) then .sinkOnly
-  else if allPhases.all (fun ph => !readsIn e ph || writesIn e ph) then .rewrittenBeforeRead
+  else if allPhases.all (fun ph => !readsIn e ph || uncondWritesIn e ph) then .rewrittenBeforeRead
   else .shared
+
+/-- the two class attributes of F-10 -/
+def knownLeaksB : List String :=
+  [ "game.agent.observations.nic_observations:NICObservation.capture_nmne",
+    "simulator.network.hardware.base:NetworkInterface.nmne_config" ]
 
 /-- the functions that the regenerated inventory shows touching a runtime-written global or a global RNG are exactly the
 functions of the committed role table (a new or renamed function breaks this obligation) -/
@@ -617,12 +713,39 @@ theorem C04_gen_classification :
         ("simulator.system.core.packet_capture:PacketCapture._logger_instances", .sinkOnly),
         ("simulator:SIM_OUTPUT", .sinkOnly) ] := by decide +kernel
 
+/-- Every run-time write of a global that some operation reads (derived class `shared` or `rewrittenBeforeRead`) is UNCONDITIONAL: each
+writer function has a write site that is a top-level statement of its body, before any `return`. (`rewrittenBeforeRead` needs it; a
+conditional assignment — "only when the scenario has a non-empty nmne_config" — makes an episode inherit the previous episode's setting,
+`C04_conditional_write_counterexample`.) -/
+theorem C04_gen_writes_unconditional :
+    ((entries.filter fun e => derive e == .shared || derive e == .rewrittenBeforeRead).all fun e =>
+      !e.writers.isEmpty && e.writers.all fun f => e.uncondWriters.contains f) = true := by decide +kernel
+
+/-- the method names of the non-sink reader functions of an entry, writers themselves excluded -/
+def readerIdents (e : Entry) : List String :=
+  (e.readers.filter fun f => !isSink f && !e.writers.contains f).filterMap fun f => fnIdents[f]?
+
+/-- Order inside the operation (was an assumption): `from_config` assigns the two NMNE class attributes as top-level statements, and the
+only calls it makes BEFORE those statements are the committed ones — the empty game's constructor, option parsing, `dict.get`, the
+airspace capacity table — none of which is a reader of the attributes (checked by name against the inventory's readers) or builds a node. -/
+theorem C04_gen_write_order :
+    (callsBeforeWrite.filter (fun r => knownLeaksB.contains r.1)).map (fun r => (r.1, r.2.1, r.2.2.1)) =
+      [ ("game.agent.observations.nic_observations:NICObservation.capture_nmne", "game.game:PrimaiteGame.from_config",
+          ["cls", "PrimaiteGameOptions", "cfg.get().get", "cfg.get", "simulation_config.get", "network_config.get", "airspace_cfg.get",
+           "net.airspace.set_frequency_max_capacity_mbps", "NMNEConfig"]),
+        ("simulator.network.hardware.base:NetworkInterface.nmne_config", "game.game:PrimaiteGame.from_config",
+          ["cls", "PrimaiteGameOptions", "cfg.get().get", "cfg.get", "simulation_config.get", "network_config.get", "airspace_cfg.get",
+           "net.airspace.set_frequency_max_capacity_mbps"]) ]
+    ∧ ((callsBeforeWrite.filter (fun r => knownLeaksB.contains r.1)).all fun r =>
+        match entries.find? (fun e => e.name == r.1) with
+        | none => false
+        | some e => r.2.2.2.all fun c => !(readerIdents e).contains c) = true
+    ∧ fnIdents.length = fns.length := by decide +kernel
+
 /-- no `global` statement anywhere, and no module logger object is re-bound or mutated by a function -/
 theorem C04_gen_no_global_statements : globalStatements = [] ∧ moduleLoggersWritten = [] := by decide
 
-def knownLeaks : List String :=
-  [ "game.agent.observations.nic_observations:NICObservation.capture_nmne",
-    "simulator.network.hardware.base:NetworkInterface.nmne_config" ]
+def knownLeaks : List String := knownLeaksB
 
 /-- Full statement of DESIGN's `gen_globals_safe` -/
 def C04_FullGenGlobalsSafe : Prop := ∀ e ∈ entries, derive e ≠ .shared
@@ -670,14 +793,14 @@ def numbered : List (Nat × String) :=
     (gPcapLoggers, "simulator.system.core.packet_capture:PacketCapture._logger_instances") ]
 
 /-- For each numbered global and each operation: the skeleton program writes it iff the inventory has a writer in that
-operation, and reads it unprotected iff the inventory has a non-sink reader but no writer in that operation. Likewise
+operation, and reads it unprotected iff the inventory has a non-sink reader but no UNCONDITIONAL writer in that operation. Likewise
 for the RNG (global 0) against `rngUses`. -/
 theorem C04_gen_skeleton_matches :
     (numbered.all fun (g, n) => match entryNamed n with
       | none => false
       | some e => allPhases.all fun ph =>
           ((writesOf (progOf ph)).contains g == writesIn e ph)
-          && ((unprotectedReads [] (progOf ph)).contains g == (readsIn e ph && !writesIn e ph))) = true
+          && ((unprotectedReads [] (progOf ph)).contains g == (readsIn e ph && !uncondWritesIn e ph))) = true
     ∧ (allPhases.all fun ph =>
           ((unprotectedReads [] (progOf ph)).contains gRng == (rngDrawnIn "random" ph && !rngSeededIn "random" ph))) = true := by
   decide +kernel
@@ -809,6 +932,7 @@ the per-episode reward record; no later method assigns an attribute of the envir
 returns a deep copy; the list scheduler parses the YAML anew and keeps only a warn-once flag. -/
 theorem C04_gen_reset_shape :
     resetGameSource = "PrimaiteGame.from_config(cfg=self.episode_scheduler(self.episode_counter))"
+    ∧ initGameSource = "PrimaiteGame.from_config(self.episode_scheduler(0))"
     ∧ resetAssigns = ["total_reward_per_episode[…]", "episode_counter", "game"]
     ∧ laterWrites = []
     ∧ (laterReads.all fun r => ["_agent_name", "game", "agent", "_get_obs", "_write_step_metadata_json", "episode_counter", "io"].contains r) = true
